@@ -239,7 +239,8 @@ def handle_failure(ctx, pid, r, violations, inconclusive, known_hits):
     plays = [p for p in r.get('playback', []) if p['kind'] != 'cover']
     fc = r.get('failed_checks', [])
     unwind = [c for c in fc if 'unwinding assertion' in c['description']]
-    if unwind and len(unwind) == len(fc):
+    if unwind:
+        # once an unwinding assertion fails every other verdict of the run is void
         inconclusive.append('%s: unwinding bound too small (%s)' % (r['harness'], unwind[0]['location']))
         return
     if not plays:
